@@ -69,6 +69,16 @@ func (it c20Item) sql() string {
 	case "await_get":
 		// AWAIT defers the read until every row has been evaluated: it sees the register's final value
 		return fmt.Sprintf("AWAIT(GETVAR(%s)) AS %s", it.ksql(), it.Alias)
+	case "await_set":
+		// AWAIT defers the write as well: it happens after every row has been evaluated, in row order
+		v := trimFloat(it.VNum)
+		switch it.VKind {
+		case "col":
+			v = "a"
+		case "getvar":
+			v = fmt.Sprintf("GETVAR('%s')", it.VKey)
+		}
+		return fmt.Sprintf("AWAIT(SETVAR(%s, %s))", it.ksql(), v)
 	case "col":
 		return it.Col
 	case "get":
@@ -181,7 +191,7 @@ func genC20(t *rapid.T) *Bundle {
 		ni := rapid.IntRange(1, 7).Draw(t, "nitems")
 		usedCols := map[string]bool{}
 		for i := 0; i < ni; i++ {
-			kinds := []string{"set", "get", "set", "get", "col", "async", "spin", "getsub", "setv_async", "case_set", "if_get", "await_get", "setsub"}
+			kinds := []string{"set", "get", "set", "get", "col", "async", "spin", "getsub", "setv_async", "case_set", "if_get", "await_get", "setsub", "await_set"}
 			if q.Dual {
 				kinds = []string{"set", "get"}
 			}
@@ -203,6 +213,15 @@ func genC20(t *rapid.T) *Bundle {
 			case "await_get":
 				it.Key, it.KeySQL = drawKey("key")
 				it.Alias = fmt.Sprintf("w%d", i)
+			case "await_set":
+				it.Key, it.KeySQL = drawKey("key")
+				it.VKind = rapid.SampledFrom([]string{"num", "col", "getvar"}).Draw(t, "await_set_v")
+				switch it.VKind {
+				case "num":
+					it.VNum = float64(rapid.SampledFrom([]int{8, 9}).Draw(t, "await_set_num"))
+				case "getvar":
+					it.VKey = rapid.SampledFrom(keys).Draw(t, "await_set_key")
+				}
 			case "if_get":
 				it.Key, it.KeySQL = drawKey("key")
 				it.Key2, it.Key2SQL = drawKey("key2")
@@ -286,6 +305,7 @@ func genC20(t *rapid.T) *Bundle {
 		for pass := 0; pass < passes; pass++ {
 			rows1 = rows
 			rows = []any{}
+			var deferred []func()
 			for _, r := range src {
 				row := r.(map[string]any)
 				if q.WhereK >= 0 && row["a"].(float64) < float64(q.WhereK) {
@@ -301,7 +321,21 @@ func genC20(t *rapid.T) *Bundle {
 					case "async":
 						out[it.Alias] = stubValue("fx", it.Site, row["a"])
 					case "await_get":
-						out[it.Alias] = "$AWAIT:" + it.Key
+						it, out := it, out
+						out[it.Alias] = nil
+						deferred = append(deferred, func() { out[it.Alias] = model[it.Key] })
+					case "await_set":
+						it, row := it, row
+						deferred = append(deferred, func() {
+							switch it.VKind {
+							case "num":
+								model[it.Key] = it.VNum
+							case "col":
+								model[it.Key] = row["a"]
+							case "getvar":
+								model[it.Key] = model[it.VKey]
+							}
+						})
 					case "getsub":
 						out[it.Alias] = map[string]any{"g": model[it.Key]}
 					case "case_set":
@@ -352,14 +386,9 @@ func genC20(t *rapid.T) *Bundle {
 				}
 				rows = append(rows, out)
 			}
-			// awaited reads see the state after the last row of this query
-			for _, r := range rows {
-				out := r.(map[string]any)
-				for k, v := range out {
-					if sv, ok := v.(string); ok && strings.HasPrefix(sv, "$AWAIT:") {
-						out[k] = model[strings.TrimPrefix(sv, "$AWAIT:")]
-					}
-				}
+			// awaited reads and writes happen after the last row of this evaluation, in (row, item) order
+			for _, d := range deferred {
+				d()
 			}
 		}
 		if !q.Twice {
